@@ -321,6 +321,14 @@ var strPool = []string{"", " ", "a", "ab", "abc", "a b", "  a  b ", "\t", "a\nb"
 
 // SubstrNum draws a start/length argument: -3 .. 9 in steps of 0.5.
 func (g *G) SubstrNum() xast.Expr {
+	if g.intn(12, "hugenum") == 11 {
+		// finite arguments far beyond the string and beyond every integer type
+		lit := &xast.Num{Lit: g.pick([]string{"2147483648", "4294967296", "9223372036854775807", "9223372036854775808", "18446744073709551616", "1000000000000000000000", "0.0000001"}, "hugelit")}
+		if g.chance(3, "hugeneg") {
+			return &xast.Neg{X: lit}
+		}
+		return lit
+	}
 	k := rapid.IntRange(-6, 18).Draw(g.T, "halfsteps")
 	neg := k < 0
 	if neg {
